@@ -14,13 +14,17 @@
      Sub i k    k = Single: start of `await channel` (closed -> raise; register buffer;
                 subscribe to the notification);  k = Iter: first __anext__ of __aiter__
                 (register; buffer empty; closed -> finally: unregister, end; else subscribe)
-     Resume i   a consumer whose wake-up was scheduled by awake_all runs again:
+     Resume i   a consumer whose wake-up was scheduled runs again.  Woken by awake_all:
                 Single: unsubscribe, finally: unregister, return buffer[0] / raise
-                Iter:   the `while True` loop: yield popleft / end if closed / sleep again
-     Next i     the iterating consumer calls __anext__ again (generator resumes after yield)
+                Iter:   buffer non-empty -> yield popleft at once; else `continue`: end if
+                        closed / sleep again
+                Iter after its postponement (phase Postponed): yield popleft
+     Next i     the iterating consumer calls __anext__ again (generator resumes after yield):
+                top of the loop: buffered -> `await postpone()` FIRST (fix D15: the pop happens
+                after the postponement); closed and drained -> end; else sleep
      Fault i    a foreign signal (cancel, until-interrupt, GeneratorExit of close) hits the
-                consumer while it is suspended in the notification (woken or not):
-                __subscription__ cleans up, finally: unregister, the signal propagates
+                consumer while it is suspended in the notification (woken or not) or in the
+                postponement: clean-up, finally: unregister, the signal propagates
      Leave i    the iterating consumer leaves its loop body by any route (break, exception,
                 cancel/interrupt/close while suspended in the body); the generator object
                 is still alive and registered
@@ -31,7 +35,7 @@ Require Import ZArith List Bool Lia.
 Import ListNotations.
 
 Inductive kind := Single | Iter.
-Inductive phase := Waiting | Woken | Body | Abandoned | Done.
+Inductive phase := Waiting | Woken | Postponed | Body | Abandoned | Done.
 Inductive outcome := ONone | OGot (x : Z) | OClosed | OEnded | OFault | OLeft | OError.
 
 Record cons := mkC {
@@ -54,7 +58,7 @@ Inductive op :=
 | Resume (i : nat) | Next (i : nat) | Fault (i : nat) | Leave (i : nat) | Finalise (i : nat).
 
 Inductive out :=
-| RNone | RRaised | RSleep | RYield (x : Z) | RGot (x : Z) | REnded | RError | RDisabled.
+| RNone | RRaised | RSleep | RPostpone | RYield (x : Z) | RGot (x : Z) | REnded | RError | RDisabled.
 
 Definition init : state := mkS false [] [].
 
@@ -74,10 +78,26 @@ Definition c_put (x : Z) (c : cons) : cons :=
   then wake (mkC (cid c) (ckind c) (cph c) (csub c) (cbuf c ++ [x]) (crecv c) (cout c))
   else c.
 
-(* body of `while True:` in __aiter__, entered whenever the generator has control *)
-Definition iter_loop (cl : bool) (c : cons) : cons * out :=
+(* `yield buffer.popleft()` *)
+Definition yield_head (c : cons) : cons * out :=
   match cbuf c with
   | x :: r => (mkC (cid c) (ckind c) Body (csub c) r (crecv c ++ [x]) (cout c), RYield x)
+  | [] => (finish OError c, RError)                                   (* IndexError *)
+  end.
+
+(* top of `while True:` in __aiter__ (first __anext__, or __anext__ after a yield):
+   buffered -> postpone (the pop comes after it); closed and drained -> end; else sleep *)
+Definition iter_loop (cl : bool) (c : cons) : cons * out :=
+  match cbuf c with
+  | _ :: _ => (set_ph Postponed c, RPostpone)
+  | [] => if cl then (finish OEnded c, REnded) else (set_ph Waiting c, RSleep)
+  end.
+
+(* after `await self._notification`: `if not buffer: continue` (= top of the loop with an
+   empty buffer) else yield at once *)
+Definition iter_wake (cl : bool) (c : cons) : cons * out :=
+  match cbuf c with
+  | _ :: _ => yield_head c
   | [] => if cl then (finish OEnded c, REnded) else (set_ph Waiting c, RSleep)
   end.
 
@@ -97,9 +117,10 @@ Definition upd (i : nat) (f : cons -> cons) (l : list cons) : list cons :=
 Definition local (o : op) (cl : bool) (c : cons) : option (cons * out) :=
   match o, cph c, ckind c with
   | Resume _, Woken, Single => Some (single_resume cl c)
-  | Resume _, Woken, Iter => Some (iter_loop cl c)
+  | Resume _, Woken, Iter => Some (iter_wake cl c)
+  | Resume _, Postponed, Iter => Some (yield_head c)
   | Next _, Body, Iter => Some (iter_loop cl c)
-  | Fault _, Waiting, _ | Fault _, Woken, _ => Some (finish OFault c, RRaised)
+  | Fault _, Waiting, _ | Fault _, Woken, _ | Fault _, Postponed, _ => Some (finish OFault c, RRaised)
   | Leave _, Body, _ => Some (set_ph Abandoned c, RNone)
   | Finalise _, Abandoned, _ => Some (finish OLeft c, RNone)
   | _, _, _ => None
@@ -161,7 +182,7 @@ Definition proj (s : state) : bool * list (list Z) :=
 (* ---- executable comparison used by the generated case files *)
 Definition out_eqb (a b : out) : bool :=
   match a, b with
-  | RNone, RNone | RRaised, RRaised | RSleep, RSleep | REnded, REnded
+  | RNone, RNone | RRaised, RRaised | RSleep, RSleep | RPostpone, RPostpone | REnded, REnded
   | RError, RError | RDisabled, RDisabled => true
   | RYield x, RYield y | RGot x, RGot y => Z.eqb x y
   | _, _ => false
